@@ -68,6 +68,21 @@ def priority_signature(fn: Function) -> List[Rule]:
     L = Locals(fn.node)
     sig: List[Rule] = []
     body = [s for s in fn.node.body if not (isinstance(s, ast.Expr) and isinstance(s.value, ast.Constant))]  # type: ignore[attr-defined]
+    # `declared = operation.responses`: a local alias of the searched list is written out (the rules below read `<x>.responses`)
+    alias = {}
+    for st in body:
+        if isinstance(st, ast.Assign) and len(st.targets) == 1 and isinstance(st.targets[0], ast.Name) and isinstance(st.value, ast.Attribute) and st.value.attr == "responses" \
+                and L.single(st.targets[0].id) is not None:
+            alias[st.targets[0].id] = st.value
+    if alias:
+        import copy
+
+        class _Sub(ast.NodeTransformer):
+            def visit_Name(self, node):  # noqa: N802
+                return copy.deepcopy(alias[node.id]) if node.id in alias and isinstance(node.ctx, ast.Load) else node
+
+        body = [st if (isinstance(st, ast.Assign) and isinstance(st.targets[0], ast.Name) and st.targets[0].id in alias) else ast.fix_missing_locations(_Sub().visit(copy.deepcopy(st)))
+                for st in body]
     i = 0
     while i < len(body):
         st = body[i]
